@@ -132,6 +132,15 @@ func c18Gen(rng *verifsim.RNG, idx int, tier string) *Plan {
 		p.Faults = append(p.Faults, Fault{Seam: "read", From: rng.Int63n(t + 1), Count: rng.Range(2, 9), Err: []string{"EINTR", "EMFILE"}[rng.Intn(2)]})
 		p.Class += "+receive-errors-in-a-row"
 	}
+	if rng.Bool(0.3) {
+		// the monitor's clock has moved on every time it is read (by a third to
+		// two thirds of a second): one message has one receipt time all the same
+		if p.Opt == nil {
+			p.Opt = map[string]int64{}
+		}
+		p.Opt["monitor_clock_step"] = int64(rng.Dur(300*time.Millisecond, 700*time.Millisecond))
+		p.Class += "+moving-clock"
+	}
 	p.Horizon = t + 2*nsSec
 	return p
 }
@@ -161,6 +170,35 @@ func c18Oracle(info *runInfo, res *verifsim.Result) {
 		return 0
 	}
 
+	wantFor := func(r *rx, host, typ string, at int64) []string {
+		var want []string
+		want = append(want, fmt.Sprintf("counter corerad_monitor_messages_received_total{interface=%s,host=%s,message=%s} 1", ifn, host, typ))
+		if ra, ok := r.msg.(*ndp.RouterAdvertisement); ok {
+			want = append(want,
+				fmt.Sprintf("gauge corerad_monitor_flag_managed{interface=%s,router=%s} %d", ifn, host, b2f(ra.ManagedConfiguration)),
+				fmt.Sprintf("gauge corerad_monitor_flag_other{interface=%s,router=%s} %d", ifn, host, b2f(ra.OtherConfiguration)))
+			if ra.RouterLifetime != 0 {
+				want = append(want, fmt.Sprintf("gauge corerad_monitor_default_route_expiration_timestamp_seconds{interface=%s,router=%s} %d", ifn, host, unix(at, ra.RouterLifetime)))
+			} else {
+				res.Probe("ra_lifetime_zero")
+			}
+			for _, o := range ra.Options {
+				pi, ok := o.(*ndp.PrefixInformation)
+				if !ok {
+					continue
+				}
+				res.Probe("prefix_option")
+				lab := fmt.Sprintf("{interface=%s,prefix=%s/%d,router=%s}", ifn, pi.Prefix, pi.PrefixLength, host)
+				want = append(want,
+					fmt.Sprintf("gauge corerad_monitor_prefix_autonomous%s %d", lab, b2f(pi.AutonomousAddressConfiguration)),
+					fmt.Sprintf("gauge corerad_monitor_prefix_on_link%s %d", lab, b2f(pi.OnLink)),
+					fmt.Sprintf("gauge corerad_monitor_prefix_preferred_expiration_timestamp_seconds%s %d", lab, unix(at, pi.PreferredLifetime)),
+					fmt.Sprintf("gauge corerad_monitor_prefix_valid_expiration_timestamp_seconds%s %d", lab, unix(at, pi.ValidLifetime)))
+			}
+		}
+		return want
+	}
+	var clockReads []int64
 	var cur *rx
 	curG := 0
 	var got []string
@@ -177,35 +215,29 @@ func c18Oracle(info *runInfo, res *verifsim.Result) {
 		}
 		host := r.src.String()
 		typ := r.msg.Type().String()
-		var want []string
-		want = append(want, fmt.Sprintf("counter corerad_monitor_messages_received_total{interface=%s,host=%s,message=%s} 1", ifn, host, typ))
-		if ra, ok := r.msg.(*ndp.RouterAdvertisement); ok {
+		if _, ok := r.msg.(*ndp.RouterAdvertisement); ok {
 			nRA++
-			want = append(want,
-				fmt.Sprintf("gauge corerad_monitor_flag_managed{interface=%s,router=%s} %d", ifn, host, b2f(ra.ManagedConfiguration)),
-				fmt.Sprintf("gauge corerad_monitor_flag_other{interface=%s,router=%s} %d", ifn, host, b2f(ra.OtherConfiguration)))
-			if ra.RouterLifetime != 0 {
-				want = append(want, fmt.Sprintf("gauge corerad_monitor_default_route_expiration_timestamp_seconds{interface=%s,router=%s} %d", ifn, host, unix(r.t, ra.RouterLifetime)))
-			} else {
-				res.Probe("ra_lifetime_zero")
-			}
-			for _, o := range ra.Options {
-				pi, ok := o.(*ndp.PrefixInformation)
-				if !ok {
-					continue
-				}
-				res.Probe("prefix_option")
-				lab := fmt.Sprintf("{interface=%s,prefix=%s/%d,router=%s}", ifn, pi.Prefix, pi.PrefixLength, host)
-				want = append(want,
-					fmt.Sprintf("gauge corerad_monitor_prefix_autonomous%s %d", lab, b2f(pi.AutonomousAddressConfiguration)),
-					fmt.Sprintf("gauge corerad_monitor_prefix_on_link%s %d", lab, b2f(pi.OnLink)),
-					fmt.Sprintf("gauge corerad_monitor_prefix_preferred_expiration_timestamp_seconds%s %d", lab, unix(r.t, pi.PreferredLifetime)),
-					fmt.Sprintf("gauge corerad_monitor_prefix_valid_expiration_timestamp_seconds%s %d", lab, unix(r.t, pi.ValidLifetime)))
-			}
+		}
+		// the receipt time is one instant: with a clock that moves on every
+		// reading, any ONE of the readings made while the message was handled
+		// (all expiries from the same one); with the fake clock, the instant the
+		// receive returned
+		cands := append([]int64(nil), clockReads...)
+		if len(cands) == 0 {
+			cands = []int64{r.t}
+		} else {
+			res.Probe("monitor_clock_moves_on_every_reading")
 		}
 		g2 := append([]string(nil), got...)
-		sort.Strings(want)
 		sort.Strings(g2)
+		var want []string
+		for _, c := range cands {
+			want = wantFor(r, host, typ, c)
+			sort.Strings(want)
+			if strings.Join(want, "\n") == strings.Join(g2, "\n") {
+				break
+			}
+		}
 		if strings.Join(want, "\n") != strings.Join(g2, "\n") {
 			rule, sig := "C18.prefix", "metrics"
 			if len(g2) > 0 && len(want) > 0 && g2[0] != want[0] && strings.HasPrefix(want[0], "counter") {
@@ -227,6 +259,7 @@ func c18Oracle(info *runInfo, res *verifsim.Result) {
 		if e.K == "read.exit" && e.Err == "" && e.If == ifn {
 			flush()
 			cur, curG, got, sawCallback = bySeq[e.Seq], e.G, nil, false
+			clockReads = nil
 			continue
 		}
 		if cur == nil || e.G != curG {
@@ -242,6 +275,8 @@ func c18Oracle(info *runInfo, res *verifsim.Result) {
 			}
 		case "onmessage":
 			sawCallback = true
+		case "mon.now":
+			clockReads = append(clockReads, e.V)
 		}
 	}
 	flush()
